@@ -606,4 +606,8 @@ theorem mkNested_depth (s d : Str) (o c : Char) (solid : Bool) (ho : d.contains 
       intro t ht
       exact ⟨this t ht, Or.inl rfl⟩
 
+
+theorem strOk_of_int {s : Str} (hs : s.length < 2147483648) : StrOk s := by
+  unfold StrOk maxStr; omega
+
 end Bpp.Text.RT
